@@ -53,13 +53,16 @@ class Encoder:
     def __init__(self, model_exe):
         self.exe = model_exe
         self.req = []
+        self.meta = []      # what the sender put into packet i: ("8301", cni, mjd, hh, mm, ss, lto, neg, des) / ("8302", cni, pil, pty, lci, luf, prf, pcs, mi, des)
 
     def p8301(self, cni, mjd=58754, hh=12, mm=0, ss=0, lto=2, neg=0, designation=0, rng=None):
         self.req.append("spec_enc8301 %s %d %d %d %d %d %d %d" % (hx(fill_830(designation, rng)), cni, mjd, hh, mm, ss, lto, neg))
+        self.meta.append(("8301", cni, mjd, hh, mm, ss, lto, neg, designation))
         return len(self.req) - 1
 
     def p8302(self, cni, pil=0, pty=0, lci=0, luf=0, prf=0, pcs=0, mi=1, designation=2, rng=None):
         self.req.append("spec_enc8302 %s %d %d %d %d %d %d %d %d" % (hx(fill_830(designation, rng)), lci, luf, prf, pcs, mi, cni, pil, pty))
+        self.meta.append(("8302", cni, pil, pty, lci, luf, prf, pcs, mi, designation))
         return len(self.req) - 1
 
     def run(self):
@@ -83,6 +86,21 @@ def wss_word(fmt, film=0, subt=0, rest=0):
     b0 = a | (par << 3) | ((film & 1) << 4) | (rest & 0xE0)
     b1 = ((subt & 3) << 1) | ((rest >> 8) & 0x39)
     return [b0 & 0xFF, b1 & 0xFF]
+
+
+def cpr_spec(b0):
+    """aspect a CPR-1204 (525-line WSS) word announces: bit 7 anamorphic 16:9, bit 6 letterbox (active lines 72..212,
+    else the full 22..262); film mode and subtitles are not transmitted"""
+    return [72, 212, 2 if b0 & 0x80 else 1, 0, 3] if b0 & 0x40 else [22, 262, 2 if b0 & 0x80 else 1, 0, 3]
+
+
+def sent_events(m):
+    """what a clean packet of the sender must make the decoder report: ("pid", [fields]) / ("lt", [time, seconds east])"""
+    if m[0] == "8302":
+        _, cni, pil, pty, lci, luf, prf, pcs, mi, des = m
+        return "pid", [lci, 3, cni, pil, luf, mi, prf, pcs, pty]
+    _, cni, mjd, hh, mm, ss, lto, neg, des = m
+    return "lt", [(mjd - 40587) * 86400 + hh * 3600 + mm * 60 + ss, (-1 if neg else 1) * lto * 1800]
 
 
 def parse_events(line):
